@@ -107,6 +107,7 @@ func checkC02(c *Ctx) {
 	}
 	micWrappers(c, "R4.wrappers", false)
 	flowC02(c)
+	statelessRoots(c, "R5.stateless", "PHYPayload.calculateUplinkDataMIC", "PHYPayload.calculateDownlinkDataMIC", "PHYPayload.SetUplinkDataMIC", "PHYPayload.SetDownlinkDataMIC", "PHYPayload.ValidateUplinkDataMIC", "PHYPayload.ValidateDownlinkDataMIC", "PHYPayload.ValidateUplinkDataMICF")
 }
 
 func c02One(c *Ctx, uplink bool, ver int64, v avariant) {
